@@ -34,6 +34,9 @@ CLAIMS = {
  "C17": dict(cat="model_checking", ref="3 (C17)", technique="TLA+ module Naming.tla: bijective/positional numeration with capacities and an inverse (TLC walks every number up to and past each capacity), and the (A3,I2) quirk as functions on five-character class strings (TLC checks all 3125); every enumerated number / class string replayed through the real name generators and fix/unfix functions; geometries built at capacity +-1",
    text="TLC checks that each generated name has an inverse (hence all are distinct), that a name is too long exactly above the capacity, the two surface-layer numbers, and on all five-character class strings that repair is idempotent, un-repair equals the simulator's print form and one write/read cycle reaches a fixed point. Every number and class string is replayed through column/node/layer_name_from_number (both justifications, several alphabets, with and without spaces), fix_blockname, unfix_blockname, fix_block_mapping; rectangular geometries at and one past every capacity must give distinct five-character block names whose column/layer parts invert block_name, or raise NamingConventionError.",
    note="Quick tier compares generated letter names up to 2200 and checks only the error rule near 18278; thorough walks the full range and builds the 18278/18279-column geometries."),
+ "C01": dict(cat="model_checking", ref="3 (C01)", technique="TLA+ writer/reader protocol T2DataFile.tla (23 section kinds by shape, keyword dispatch, counted and sentinel-terminated lists, PARAM's continuation/hand-back rule, end keyword) model-checked by TLC over every legal order of small documents and over harness-composed full documents; each document built through the public API, written with a record-level trace, read, written, read, written by the real t2data, with MESH / MESHA+MESHB / .pdat variants and the shipped files",
+   text="TLC checks on the protocol model that the reader inverts the writer for every legal order of sections (within bounds) and both end keywords, that no record is misread or left over, and that the pinned PARAM continuation rule does not (negative configuration); well-formedness conditions (SIMUL before PARAM/MULTI, MULTI before DIFFU, rocks before blocks before connections before short/history sections) are part of the model. Documents (all legal orders of the always-present sections plus one optional section; random full-size documents with table generators 1..12 times, 0..12 default initial conditions, lengths on both sides of the 4/8-per-line boundaries, every section kind) are instantiated and cycled three times through the real code: content compared through a canonical form, second file equal to the first up to trailing blanks, third byte-identical; also with the mesh in a MESH file, in MESHA+MESHB and with extra precision on / echoed / partial; shipped files cycled as well.",
+   note="Values are exactly representable in their fields (C02 covers widths); INCON/INDOM entries hold at most 4 values; the per-section readers are modelled one step per section, not per record; Fortran-style independent writer records are not covered."),
 }
 REASONS_PENDING = "check not built yet in this revision (see DESIGN.md section 6 build order); the specification family applies"
 NA = {
